@@ -33,6 +33,13 @@ CHECKS = {
          "star_must, if_must_else, keyword, identifier, shebang, ...) are the same C++ type as their expansion; the resolver expands them like the using-declarations and the differential run checks it."),
    note=GENERAL_NOTE + " expandKind is transcribed by hand from doc/Rule-Reference.md (a mismatch with the code shows up in the semEval oracle, a mismatch with the doc would not). string/istring/ranges/rep_one_min_max/rep_string/separated_seq/if_then equivalences are not yet covered by a theorem.",
    technique="Lean 4 refinement proof of each optimised rule body into the PEG semantics of its documented expansion; differential correspondence; spec-evaluator oracle"),
+ 'C10': dict(engine='leaf-encodings', design_ref='DESIGN.md §6 C10',
+   text=("Proof (Lean 4): peekUtf8 accepts exactly the well-formed encodings of scalar values (= Unicode Table 3-7; no overlong forms, surrogates, > U+10FFFF, truncations) with N = encoding length; "
+         "the same for UTF-16 (both byte orders) and UTF-32; peekUint = endian-adjusted, masked value with N = width; one/not_one/range/not_range/ranges/any accept exactly their sets for every Peek; "
+         "every ASCII/ABNF class of the table translated from ascii.hpp/abnf.hpp on every run (Gen = Expected obligation) accepts exactly its documented 256-entry set; ichar_equal folds exactly the ASCII letters; "
+         "success consumes exactly the unit length, failure consumes nothing."),
+   note=GENERAL_NOTE + " Tie: exhaustive over every byte per class, all 1-2 byte and (quick: lead E0..EF / thorough: all) 3-byte UTF-8 inputs, boundary 4-byte inputs, all truncations, every 16-bit unit, all uint16 values; UTF-32/uint32/uint64 boundary-structured. Only the little-endian-host branch of endian_gcc.hpp and signed char are modelled (static asserts in the harness).",
+   technique="Lean 4 proof about executable models of the peek/test functions and a translated class table; exhaustive differential correspondence; Python codec oracle"),
  'C16': dict(engine='leaf-rawstring', design_ref='DESIGN.md §6 C16',
    text=("Proof (Lean 4): for the model of contrib/raw_string.hpp, raw_string matches iff a Lua long literal of some level starts at the cursor; it consumes through the first same-level closer; "
          "the content action gets the text between the brackets minus one leading eol; other-level brackets are ignored; a failure under required restores the cursor — for all inputs, offsets, "
@@ -57,7 +64,7 @@ CHECKS = {
 PENDING = {
  'C03': "check under construction (out-of-window invariant and ASan/hook run not yet registered)",
  'C04': "check under construction", 'C05': "check under construction", 'C06': "check under construction",
- 'C07': "check under construction", 'C08': "check under construction", 'C10': "check under construction (leaf model being built)", 'C11': "check under construction", 'C12': "check under construction",
+ 'C07': "check under construction", 'C08': "check under construction", 'C11': "check under construction", 'C12': "check under construction",
  'C13': "check under construction", 'C14': "check under construction", 'C15': "check under construction (leaf model being built)",
  'C18': "check under construction", 'C20': "check under construction",
 }
